@@ -509,4 +509,65 @@ example :
     by rw [show imageBaseField .pe32 img.bytes = 0x400000 by decide +kernel]⟩, ?_⟩
   decide +kernel
 
+/-! ### non-vacuity of `C09_terminator_readings`: a well-formed directory of two DLLs -/
+
+/-- a 400-byte PE32 image (mapped): the headers of `demoBytes` with SizeOfImage 400, data directory 1 =
+(288, 60), data directory 12 = (360, 20); at 288 descriptor 0 {OFT 348, Name 386 "k.dll", FT 360}, at 308
+descriptor 1 {OFT 0 (no name table), Name 392 "u.dll", FT 372}, at 328 the all-zero terminator; at 348 the
+name table {380, 0x80000007, 0}, at 360 / 372 the address tables {380, 0x80000007, 0} / {0x80000009, 0},
+at 380 hint 5 "Fn", then the two DLL names.  The real `pelite` answers the same two descriptors
+(`imports v32 dump` on these bytes). -/
+def twoDllBytes : Bytes :=
+  #[77, 90, 0, 0, 0, 0, 0, 0, 0, 0, 0, 0, 0, 0, 0, 0, 0, 0, 0, 0, 0, 0, 0, 0, 0, 0, 0, 0, 0, 0, 0, 0,
+    0, 0, 0, 0, 0, 0, 0, 0, 0, 0, 0, 0, 0, 0, 0, 0, 0, 0, 0, 0, 0, 0, 0, 0, 0, 0, 0, 0, 64, 0, 0, 0,
+    80, 69, 0, 0, 76, 1, 0, 0, 0, 0, 0, 95, 0, 0, 0, 0, 0, 0, 0, 0, 200, 0, 2, 33, 11, 1, 14, 0, 0, 2,
+    0, 0, 0, 2, 0, 0, 0, 0, 0, 0, 0, 16, 0, 0, 0, 16, 0, 0, 0, 32, 0, 0, 0, 0, 64, 0, 0, 16, 0, 0, 0,
+    2, 0, 0, 6, 0, 0, 0, 0, 0, 0, 0, 6, 0, 0, 0, 0, 0, 0, 0, 144, 1, 0, 0, 32, 1, 0, 0, 0, 0, 0, 0, 3,
+    0, 64, 129, 0, 0, 16, 0, 0, 16, 0, 0, 0, 0, 16, 0, 0, 16, 0, 0, 0, 0, 0, 0, 13, 0, 0, 0, 0, 0, 0,
+    0, 0, 0, 0, 0, 32, 1, 0, 0, 60, 0, 0, 0, 0, 0, 0, 0, 0, 0, 0, 0, 0, 0, 0, 0, 0, 0, 0, 0, 0, 0, 0,
+    0, 0, 0, 0, 0, 0, 0, 0, 0, 0, 0, 0, 0, 0, 0, 0, 0, 0, 0, 0, 0, 0, 0, 0, 0, 0, 0, 0, 0, 0, 0, 0, 0,
+    0, 0, 0, 0, 0, 0, 0, 0, 0, 0, 0, 0, 0, 0, 0, 0, 0, 0, 0, 0, 0, 0, 0, 0, 0, 0, 0, 0, 104, 1, 0, 0,
+    20, 0, 0, 0, 92, 1, 0, 0, 0, 0, 0, 0, 0, 0, 0, 0, 130, 1, 0, 0, 104, 1, 0, 0, 0, 0, 0, 0, 0, 0, 0,
+    0, 0, 0, 0, 0, 136, 1, 0, 0, 116, 1, 0, 0, 0, 0, 0, 0, 0, 0, 0, 0, 0, 0, 0, 0, 0, 0, 0, 0, 0, 0, 0,
+    0, 124, 1, 0, 0, 7, 0, 0, 128, 0, 0, 0, 0, 124, 1, 0, 0, 7, 0, 0, 128, 0, 0, 0, 0, 9, 0, 0, 128, 0,
+    0, 0, 0, 5, 0, 70, 110, 0, 0, 107, 46, 100, 108, 108, 0, 117, 46, 100, 108, 108, 0, 0, 0]
+
+def twoDllView : View := ⟨⟨twoDllBytes, 0⟩, .pe32, .view, 0x400000⟩
+
+/-- `WellFormedDir` holds on the window of its import directory (the 112 bytes from 288 to the end of
+the image: five records fit, only the third has `FirstThunk = 0`, and it is all zero) -/
+example : WellFormedDir twoDllBytes 288 112 := by decide +kernel
+
+/-- … so `C09_terminator_readings` applies: the window is a two-descriptor directory under the code's
+reading, hence under the all-zero reading, and under either reading the count 2 is the only one. -/
+theorem C09_two_dll_readings :
+    IsImportDir twoDllBytes 288 112 2 ∧ IsImportDirZ twoDllBytes 288 112 2 ∧
+    (∀ n, IsImportDirZ twoDllBytes 288 112 n → n = 2) := by
+  have hwf : WellFormedDir twoDllBytes 288 112 := by decide +kernel
+  have h2 : IsImportDir twoDllBytes 288 112 2 := by decide +kernel
+  refine ⟨h2, (C09_terminator_readings _ _ _ hwf 2).1 h2, ?_⟩
+  intro n hn
+  exact C09_directory_unique _ _ _ _ _ ((C09_terminator_readings _ _ _ hwf n).2 hn) h2
+
+/-- the image is accepted, the window is the one used above, and `imports()` answers the two
+descriptors with their names and tables (descriptor 1 has no name table: `Null`) -/
+example :
+    fromBytes .pe32 .view ⟨twoDllBytes, 0⟩ = .ok twoDllView ∧
+    twoDllView.dataDir 1 = some (288, 60) ∧ twoDllView.at (.rva 288) 0 4 = .ok ⟨288, 112, 4⟩ ∧
+    tryFrom twoDllView = .ok ⟨288, 40, 4⟩ ∧ descs ⟨288, 40, 4⟩ = [⟨288, 20, 4⟩, ⟨308, 20, 4⟩] ∧
+    dllName twoDllView ⟨288, 20, 4⟩ = .ok ⟨386, 6, 1⟩ ∧ dllName twoDllView ⟨308, 20, 4⟩ = .ok ⟨392, 6, 1⟩ ∧
+    int twoDllView ⟨288, 20, 4⟩ = .ok [.ok (.byName 5 ⟨382, 3, 1⟩), .ok (.byOrdinal 7)] ∧
+    int twoDllView ⟨308, 20, 4⟩ = .err .null ∧
+    iat twoDllView ⟨308, 20, 4⟩ = .ok [⟨372, 4, 4⟩] := by
+  refine ⟨(fromBytes_ok_iff _ _ _ _).2 ⟨by decide +kernel,
+    by rw [show imageBaseField .pe32 twoDllBytes = 0x400000 by decide +kernel]; rfl⟩, ?_⟩
+  decide +kernel
+
+/-- `C09_directory_exact` / `C09_iter_exact` instantiated on it: the answer of `imports()` is forced by
+the layout relation -/
+example : ∃ image, tryFrom twoDllView = .ok image ∧ (descs image).length = 2 := by
+  obtain ⟨image, h1, _, h3, _⟩ := C09_iter_exact twoDllView 288 60 (by decide +kernel) ⟨288, 112, 4⟩
+    (by decide +kernel) 2 C09_two_dll_readings.1
+  exact ⟨image, h1, h3⟩
+
 end Pelite.Imports
